@@ -503,12 +503,19 @@ def threads_gen(tier, rnd):
         for n in range(2, 17):
             for _ in range(12):
                 cases.append("threads\t%d\t%d" % (n, rnd.randrange(1, 1 << 30)))
-    return cases, {"threads: n threads x 24 seed-derived operations each (sign/verify, encrypt/decrypt, thumbprint, base64, key generation, ECDH, refused call, header merge) vs. the same sequences one after another": len(cases)}
+    cases.append("interleave")
+    return cases, {"interleave: 8 valid probes alone vs right after each of 9 correctly refused calls, each in a fresh thread": 1, "threads: n threads x 24 seed-derived operations each (sign/verify, encrypt/decrypt, thumbprint, base64, key generation, ECDH, refused call, header merge) vs. the same sequences one after another": len(cases)}
 
 
 def threads_oracle(case, out):
     if out == "OK":
         return None
+    if case == "interleave":
+        if out.startswith("CRASH"):
+            return ("interleave-crash", "crash or sanitizer report: " + out[:300])
+        if out.startswith("PROBE-FAILS"):
+            return ("interleave-probe-fails", "a valid operation fails on its own: " + out[:200])
+        return ("hidden-state:result-depends-on-earlier-call", "a valid operation gives another result right after an unrelated, correctly refused call in the same thread than on its own: " + out[:300])
     if out.startswith("CRASH"):
         return ("threads-crash:" + re.sub(r"[0-9]+", "N", out[:70]), "crash or sanitizer report with %s threads: %s" % (case.split("\t")[1], out))
     return ("threads-diff", "a thread's result differs from the result of the same operation sequence run alone (%s): %s" % (case.replace("\t", " "), out[:400]))
